@@ -16,6 +16,7 @@ def run(ctx):
     files.update(core.dir_files('harness/c06', 'zzverif/c06'))
     files.update(core.dir_files('harness/c06/reg', 'zzverif/c06/reg'))
     files.update(core.dir_files('harness/c06/a/shapes', 'zzverif/c06/a/shapes'))
+    files.update(core.dir_files('harness/c06/n/c06', 'zzverif/c06/n/c06'))
     files.update(core.dir_files('harness/c06/b/shapes', 'zzverif/c06/b/shapes'))
     files['zzverif/c06/install_gen.go'] = os.path.join(gdir, 'install_gen.go')
     files['zzverif/c06/pa/types_gen.go'] = os.path.join(gdir, 'pa', 'types_gen.go')
@@ -29,6 +30,7 @@ def run(ctx):
     ctx.children(b, 1, run='TestC06CallSites', timeout=300)
     # value-receiver methods mocked through a pointer instance (the forwarder is the named method), both receiver kinds in
     # one builder; and a mock whose builder was dropped, under collections (stays installed: own child)
+    ctx.children(b, 1, run='TestC06SameBase', timeout=300)
     ctx.children(b, 1, run='TestC06Wrappers', timeout=300)
     chl = ctx.child(b, run='TestC06Lifetime', timeout=300, label='lifetime', env={'VERIF_C06_GCROUNDS': '40' if not ctx.thorough else '400'})
     ctx.absorb(chl, what='TestC06Lifetime')
